@@ -347,8 +347,9 @@ static void iauth_xquery_x_reply(const char service[], const char routing[],
     } else if (reply[0] == 'O' && reply[1] == 'K'
                && (reply[2] == '\0' || reply[2] == ' ')) {
         cli->ok_mask |= 1u << ii;
-        if (reply[2] != ' ' || reply[3] == ' ' || reply[3] == '\0') {
-            /* "OK" alone, or "OK " followed by an empty account name. */
+        if (reply[2] != ' ' || reply[3] == ' ' || reply[3] == '\0' || reply[3] == ':') {
+            /* "OK" alone, or "OK " followed by an empty account name or
+             * by one that could not be sent on as a word of its own. */
             srv->good_no_acct++;
         } else if ((srv->type == LOGIN)
                    || (srv->type == LOGIN_IPR)
